@@ -5,12 +5,14 @@
 From ClapModel Require Import Base.Bytes Base.Utf8 Base.Machine.
 From ClapModel Require Import Parse.Cmd Parse.Build Parse.Valid Parse.Matcher Parse.Errors Parse.Parser.
 From ClapModel Require Import Value.PossibleValues.
+From ClapModel Require Import Value.PossibleValuesProofs Value.ValueParsers ParseProofs.TypedInv ParseProofs.TypedView.
 From ClapModel Require Import Derive.DeriveModel Derive.DeriveProofs.
 From ClapModel Require Import ParseProofs.Actions ParseProofs.ActionsLoop ParseProofs.Unparse ParseProofs.UnparseTop ParseProofs.UnparseTrail ParseProofs.UnparseTree.
 From ClapModel Require Import Derive.DeriveCmd Derive.DeriveArgs Derive.DeriveParse Derive.DeriveUpdate Derive.DeriveAccept Derive.DeriveParseEx.
 From ClapModel Require Import Parse.Validator ParseProofs.Relations ParseProofs.ValidateTotal Derive.DerivePost Derive.DerivePostEx.
 From ClapModel Require Import ParseProofs.Dispatch Derive.LoopInv Derive.DeriveFlat Derive.DeriveTotal Derive.DeriveTotalEx.
 From ClapModel Require Import ParseProofs.KindSound Derive.DeriveUpdateLine Derive.DeriveUpdateLineEx Derive.DeriveDec Derive.DeriveKeys Derive.DerivePos.
+From ClapModel Require Import Derive.DeriveEnum Derive.DeriveEnumField Derive.DeriveEnumEx Derive.DeriveAbsent Derive.DeriveOptBool Derive.DeriveOptFlatten Derive.DeriveEnumPos Derive.DeriveRound5More Derive.DeriveOptFlattenNone.
 From Coq Require Import ZArith List.
 Import ListNotations.
 Open Scope N_scope.
@@ -114,20 +116,21 @@ Print Assumptions C15_roundtrip_scalars_partial.
     and fit the option syntax (no value, or one attached value of an argument that takes values). *)
 
 (** FIRST SENTENCE OF THE PROPERTY.  The derived parser returns a value exactly when the generated command's parse
-    succeeds (with the enum value check) and extraction then succeeds, and it is that value ... *)
+    succeeds and extraction then succeeds, and it is that value ...  (Round 5: the generated argument of a value-enum
+    field carries the real [EnumValueParser] -- [vp_of] = [VPPossible ic (enum_pvs e)] --, so the separate enum value
+    check of rounds 1-4 is gone from [derived_parse] and from this statement.) *)
 Theorem C15_parse_is_command_then_extract : forall d argv vs,
   derived_parse d argv = PValue vs <->
-  exists m, parse_top (derive_cmd d) argv = OOk m /\ enum_ok_nodes (d_nodes d) m = true /\ extract d m = XOk vs.
+  exists m, parse_top (derive_cmd d) argv = OOk m /\ extract d m = XOk vs.
 Proof. exact parse_factor. Qed.
 Print Assumptions C15_parse_is_command_then_extract.
 
-(** ... and it fails with a clap error exactly when the command's parse does, the enum check does, or extraction does
-    (the third disjunct is what [C15_extract_total] excludes on the command's own guarantees). *)
+(** ... and it fails with a clap error exactly when the command's parse does or extraction does
+    (the second disjunct is what [C15_extract_total] excludes on the command's own guarantees). *)
 Theorem C15_parse_error_is_command_or_extract : forall d argv k,
   derived_parse d argv = PError k <->
   (exists e, parse_top (derive_cmd d) argv = OErr e /\ e_kind e = k)
-  \/ (exists m, parse_top (derive_cmd d) argv = OOk m /\ enum_ok_nodes (d_nodes d) m = false /\ k = EInvalidValue)
-  \/ (exists m, parse_top (derive_cmd d) argv = OOk m /\ enum_ok_nodes (d_nodes d) m = true /\ extract d m = XErr k).
+  \/ (exists m, parse_top (derive_cmd d) argv = OOk m /\ extract d m = XErr k).
 Proof. exact parse_factor_err. Qed.
 Print Assumptions C15_parse_error_is_command_or_extract.
 
@@ -207,7 +210,7 @@ Theorem C15_roundtrip_parse_nonvacuous :
 Proof.
   split; [exact ParseEx.ex_struct|]. split; [exact ParseEx.ex_printable|]. split; [exact ParseEx.ex_ok|].
   split; [exact ParseEx.ex_valid|]. split; [exact ParseEx.ex_print|].
-  split; [destruct ParseEx.ex_parses as [m [H _]]; exists m; exact H|exact ParseEx.ex_roundtrip].
+  split; [exact ParseEx.ex_parses|exact ParseEx.ex_roundtrip].
 Qed.
 Print Assumptions C15_roundtrip_parse_nonvacuous.
 
@@ -260,14 +263,13 @@ Proof. exact UpdateEx.ex_update. Qed.
 Print Assumptions C15_update_unnamed_nonvacuous.
 
 (** ALL OUTCOMES ON A PRINTED LINE: the derived parser returns the printed value, or reports the generated command's own
-    rejection of the line (or the enum check's) -- never another value, never an error of extraction. *)
+    rejection of the line -- never another value, never an error of extraction. *)
 Theorem C15_roundtrip_parse_outcomes : forall d bin vs argv,
   opt_struct d -> Forall takes_ok (fields_of (d_nodes d)) -> ok_nodes (d_nodes d) vs ->
   valid (with_bin (derive_cmd d) bin) = true -> print d vs = Some argv ->
   match derived_parse d (bin :: argv) with
   | PValue vs' => vs' = vs
-  | PError k => (exists e, parse_top (derive_cmd d) (bin :: argv) = OErr e /\ e_kind e = k)
-                \/ (exists m, parse_top (derive_cmd d) (bin :: argv) = OOk m /\ enum_ok_nodes (d_nodes d) m = false)
+  | PError k => exists e, parse_top (derive_cmd d) (bin :: argv) = OErr e /\ e_kind e = k
   | PPanic _ | PInvalid => exists o, parse_top (derive_cmd d) (bin :: argv) = o /\ forall m, o <> OOk m
   end.
 Proof. exact roundtrip_parse_outcomes. Qed.
@@ -351,7 +353,7 @@ Print Assumptions C15_print_accepted.
 (** ROUND TRIP AS AN EQUALITY: [parse (print v) = Ok v] through the real parser model, for every struct of option fields
     ([opt_struct], [takes_ok]) and every value of the matches-level class ([ok_nodes]) whose printed groups pass the generated
     arguments' own count / value-parser checks ([accepted_nodes]) and that mentions the required fields.  Neither the
-    defaults ([defaults_pass] follows from [ok_nodes]) nor the enum check of the derived parser is a hypothesis. *)
+    defaults ([defaults_pass] follows from [ok_nodes]) nor the acceptance of printed enum names is a hypothesis. *)
 Theorem C15_roundtrip_parse : forall d bin vs argv,
   opt_struct d -> Forall takes_ok (fields_of (d_nodes d)) -> ok_nodes (d_nodes d) vs ->
   accepted_nodes d bin (d_nodes d) vs -> required_mentioned (d_nodes d) vs ->
@@ -418,7 +420,7 @@ Print Assumptions C15_stored_groups_nonempty.
 Theorem C15_extract_total_argv : forall d argv m,
   fields_only (d_nodes d) = true -> Forall guarded (fields_of (d_nodes d)) ->
   valid (with_bin (derive_cmd d) (hd [] argv)) = true ->
-  parse_top (derive_cmd d) argv = OOk m -> enum_ok_nodes (d_nodes d) m = true ->
+  parse_top (derive_cmd d) argv = OOk m ->
   exists vs, extract d m = XOk vs.
 Proof. exact extract_total_argv. Qed.
 Print Assumptions C15_extract_total_argv.
@@ -428,7 +430,7 @@ Print Assumptions C15_extract_total_argv.
 Theorem C15_parse_succeeds_iff_command : forall d argv,
   fields_only (d_nodes d) = true -> Forall guarded (fields_of (d_nodes d)) ->
   valid (with_bin (derive_cmd d) (hd [] argv)) = true ->
-  ((exists vs, derived_parse d argv = PValue vs) <-> (exists m, cmd_parse (derive_cmd d) (d_nodes d) argv = OOk m)).
+  ((exists vs, derived_parse d argv = PValue vs) <-> (exists m, parse_top (derive_cmd d) argv = OOk m)).
 Proof. exact parse_iff_command. Qed.
 Print Assumptions C15_parse_succeeds_iff_command.
 
@@ -437,7 +439,7 @@ Print Assumptions C15_parse_succeeds_iff_command.
     plain field is outside the class. *)
 Theorem C15_extract_total_argv_nonvacuous :
   Forall guarded (fields_of (d_nodes PostEx.d)) /\ valid (with_bin (derive_cmd PostEx.d) (hd [] TotalEx.argv)) = true
-  /\ (exists m, cmd_parse (derive_cmd PostEx.d) (d_nodes PostEx.d) TotalEx.argv = OOk m)
+  /\ (exists m, parse_top (derive_cmd PostEx.d) TotalEx.argv = OOk m)
   /\ derived_parse PostEx.d TotalEx.argv =
        PValue [DOne (SvStr [97]); DOne (SvBool true); DOne (SvInt 2%Z); DOpt None; DOne (SvStr [122])]
   /\ Forall guarded (fields_of (d_nodes TotalEx.dp)) /\ valid (with_bin (derive_cmd TotalEx.dp) (hd [] TotalEx.argvp)) = true
@@ -530,7 +532,7 @@ Print Assumptions C15_valid_flat_wf.
 Theorem C15_extract_total_argv_flat : forall d argv m,
   flat_nodes (d_nodes d) = true -> Forall guarded (leaves (d_nodes d)) ->
   valid (with_bin (derive_cmd d) (hd [] argv)) = true ->
-  parse_top (derive_cmd d) argv = OOk m -> enum_ok_nodes (d_nodes d) m = true ->
+  parse_top (derive_cmd d) argv = OOk m ->
   exists vs, extract d m = XOk vs.
 Proof. exact extract_total_argv_flat_valid. Qed.
 Print Assumptions C15_extract_total_argv_flat.
@@ -538,7 +540,7 @@ Print Assumptions C15_extract_total_argv_flat.
 Theorem C15_parse_succeeds_iff_command_flat : forall d argv,
   flat_nodes (d_nodes d) = true -> Forall guarded (leaves (d_nodes d)) ->
   valid (with_bin (derive_cmd d) (hd [] argv)) = true ->
-  ((exists vs, derived_parse d argv = PValue vs) <-> (exists m, cmd_parse (derive_cmd d) (d_nodes d) argv = OOk m)).
+  ((exists vs, derived_parse d argv = PValue vs) <-> (exists m, parse_top (derive_cmd d) argv = OOk m)).
 Proof. exact parse_iff_command_flat_valid. Qed.
 Print Assumptions C15_parse_succeeds_iff_command_flat.
 
@@ -657,7 +659,7 @@ Print Assumptions C15_positional_trail.
 
 (** ROUND TRIP AS AN EQUALITY FOR POSITIONAL FIELDS: [derived_parse d (bin :: print d v) = PValue v] through the real parser
     model (the printer writes [-- v1 v2 ..]: C02's [ITrail]; acceptance of every occurrence, the post-loop phases, the
-    entries of the final matches, extraction and the enum check are all proved -- no hypothesis speaks about the parser).
+    entries of the final matches and extraction are all proved -- no hypothesis speaks about the parser).
     Class: every field positional without explicit action / num_args / delimiter / default / required ([pos_field]: a
     non-bool [T], [Option<T>] or [Vec<T>]), distinct ids, a [Vec<T>] only last; value: [ok_nodes], an absent positional
     followed only by absent ones ([pos_prefix]), value counts within [usize]. *)
@@ -686,3 +688,476 @@ Proof.
   exact PosEx.ex_prefix_needed.
 Qed.
 Print Assumptions C15_roundtrip_parse_positional_nonvacuous.
+
+(** * Round 5: the derive model's value-enum fields use the real [EnumValueParser] (Derive/DeriveEnum.v, DeriveEnumField.v,
+      DeriveEnumEx.v).  [vp_of cnt ic (TEnum e)] = [Cmd.VPPossible ic (enum_pvs e)]: the parser model's possible-values
+      parser over the possible values of the NON-SKIPPED variants ([enum_pvs]: hidden ones included, each with its
+      [is_hide_set] flag); the stand-in [VPString] + the enum check after the parse are gone from [derived_parse]. *)
+
+(** THE LANGUAGE OF A DERIVED ENUM FIELD'S PARSER is exactly the domain of the typed reading ([parse_scalar (TEnum e)] =
+    [ValueEnum::from_str] on UTF-8 strings, with the same [ignore_case]) -- every enum, every string. *)
+Theorem C15_enum_parser_language : forall cnt e ic s,
+  vp_parse (vp_of cnt ic (TEnum e)) s = None <-> exists i, parse_scalar (TEnum e) ic s = Some (SvEnum i).
+Proof. exact enum_accepts_iff. Qed.
+Print Assumptions C15_enum_parser_language.
+
+(** ... it is the language of [EnumValueParser::parse_ref] (C04's model [enum_parse], over the same possible values);
+    the two differ only in the KIND of the rejection of a non-UTF-8 string ([invalid_value] there, [invalid_utf8] here:
+    the [dparse] projection does not compare kinds of failed parses) *)
+Theorem C15_enum_parse_ref_language : forall e ic s,
+  ((exists k, enum_parse clap_unicode ic (map fst (enum_pvs e)) s = ValueBase.VOk k) <->
+   vp_parse (Cmd.VPPossible ic (enum_pvs e)) s = None)
+  /\ (forall cnt k, vp_parse (vp_of cnt ic (TEnum e)) s = Some k ->
+                    k = if utf8_valid s then EInvalidValue else EInvalidUtf8).
+Proof. intros e ic s. split; [exact (enum_parse_ref_language e ic s)|intros cnt k; exact (enum_reject_kind cnt e ic s k)]. Qed.
+Print Assumptions C15_enum_parse_ref_language.
+
+(** HIDDEN VARIANTS ARE VALUES.  A name or alias of a non-skipped variant carrying [#[value(hide = true)]] is among the
+    parser's possible values (flagged hidden), passes the field's parser -- with or without [ignore_case] -- and is read
+    as that variant when no other kept variant claims the string.  This is WHY dropping hidden variants in
+    [EnumValueParser::parse_ref] (a seeded change: the [is_hide_set] filter of the error message applied to the match) is
+    wrong: [C15_enum_hidden_filter_refuted]. *)
+Theorem C15_enum_hidden_accepted : forall cnt e ic i v n,
+  nth_error e i = Some v -> vv_skip v = false -> vv_hide v = true ->
+  In n (name_and_aliases (vv_pv v)) -> utf8_valid n = true ->
+  In (vv_pv v, true) (enum_pvs e)
+  /\ vp_parse (vp_of cnt ic (TEnum e)) n = None
+  /\ (names_disjoint ic e -> parse_scalar (TEnum e) ic n = Some (SvEnum i)).
+Proof. exact enum_hidden_accepted. Qed.
+Print Assumptions C15_enum_hidden_accepted.
+
+(** non-vacuity: enum {alpha, #[value(skip)] beta, #[value(hide, alias = "d")] delta}: "d" and (under ignore_case) "DELTA"
+    are accepted and "d" is read as variant 2; "DELTA" without ignore_case and the skipped "beta" are InvalidValue *)
+Theorem C15_enum_hidden_accepted_nonvacuous :
+  nth_error ex_henum 2 = Some (mkVv false {| pv_name := [100; 101; 108; 116; 97]; pv_aliases := [[100]] |} true)
+  /\ vp_parse (vp_of false false (TEnum ex_henum)) [100] = None
+  /\ vp_parse (vp_of false true (TEnum ex_henum)) [68; 69; 76; 84; 65] = None
+  /\ vp_parse (vp_of false false (TEnum ex_henum)) [68; 69; 76; 84; 65] = Some EInvalidValue
+  /\ parse_scalar (TEnum ex_henum) false [100] = Some (SvEnum 2)
+  /\ vp_parse (vp_of false false (TEnum ex_henum)) [98; 101; 116; 97] = Some EInvalidValue.
+Proof. exact hidden_accepted_example. Qed.
+Print Assumptions C15_enum_hidden_accepted_nonvacuous.
+
+(** the parser that filters hidden variants out before matching ([enum_pvs_visible]) rejects a string that
+    [ValueEnum::from_str] maps to a variant: it breaks "a value-enum's names and aliases all map back to their variant" *)
+Theorem C15_enum_hidden_filter_refuted :
+  exists e ic s i, ve_from_str e s ic = Some i /\ vp_parse (Cmd.VPPossible ic (enum_pvs_visible e)) s <> None.
+Proof. exact hidden_filter_refuted. Qed.
+Print Assumptions C15_enum_hidden_filter_refuted.
+
+(** SKIPPED VARIANTS ARE NOT IN THE LANGUAGE: whatever the parser accepts is UTF-8, claimed by a NON-SKIPPED variant and read
+    as such a variant; a string no kept variant claims is rejected; no string is ever read as a skipped variant. *)
+Theorem C15_enum_language_kept : forall cnt e ic s,
+  vp_parse (vp_of cnt ic (TEnum e)) s = None ->
+  utf8_valid s = true /\
+  exists i v, nth_error e i = Some v /\ vv_skip v = false /\ pv_matches uni (vv_pv v) s ic = true
+              /\ parse_scalar (TEnum e) ic s = Some (SvEnum i).
+Proof. exact enum_language_kept. Qed.
+Print Assumptions C15_enum_language_kept.
+
+Theorem C15_enum_skipped_rejected : forall cnt e ic s,
+  (forall i v, nth_error e i = Some v -> vv_skip v = false -> pv_matches uni (vv_pv v) s ic = false) ->
+  vp_parse (vp_of cnt ic (TEnum e)) s <> None.
+Proof. exact enum_skipped_rejected. Qed.
+Print Assumptions C15_enum_skipped_rejected.
+
+Theorem C15_enum_never_reads_skipped : forall e ic s i v,
+  nth_error e i = Some v -> vv_skip v = true -> parse_scalar (TEnum e) ic s <> Some (SvEnum i).
+Proof. exact enum_never_reads_skipped. Qed.
+Print Assumptions C15_enum_never_reads_skipped.
+
+(** NAMES <-> KEPT VARIANTS IS A BIJECTION MODULO ALIASES (under [names_disjoint ic e]: no string claimed by two kept variants
+    under the comparison in use; non-vacuous: [names_disjoint_example], [ex_henum_disjoint_cs]): the canonical name of a kept
+    variant is printed for it and reads back as it; an accepted string is a name or alias (under the comparison) of the
+    variant it is read as and of no other kept variant, and that variant's canonical name is printed for it; two kept
+    variants never print the same name. *)
+Theorem C15_enum_bijection : forall e ic,
+  names_disjoint ic e ->
+  (forall i v, nth_error e i = Some v -> vv_skip v = false -> utf8_valid (pv_name (vv_pv v)) = true ->
+     print_scalar (TEnum e) (SvEnum i) = Some (pv_name (vv_pv v))
+     /\ parse_scalar (TEnum e) ic (pv_name (vv_pv v)) = Some (SvEnum i))
+  /\ (forall s i, parse_scalar (TEnum e) ic s = Some (SvEnum i) ->
+        exists v, nth_error e i = Some v /\ vv_skip v = false
+                  /\ (exists n, In n (name_and_aliases (vv_pv v)) /\ name_eq uni ic n s)
+                  /\ print_scalar (TEnum e) (SvEnum i) = Some (pv_name (vv_pv v))
+                  /\ (forall j w, nth_error e j = Some w -> vv_skip w = false ->
+                                  pv_matches uni (vv_pv w) s ic = true -> j = i))
+  /\ (forall i j n, print_scalar (TEnum e) (SvEnum i) = Some n -> print_scalar (TEnum e) (SvEnum j) = Some n -> i = j).
+Proof. exact enum_bijection. Qed.
+Print Assumptions C15_enum_bijection.
+
+(** THE GENERATED ARGUMENT of a (non-unit) field of enum type carries that parser, working with the argument's own
+    [ignore_case] ([Cmd.pv_coherent]) -- every field. *)
+Theorem C15_enum_field_parser : forall f e, f_t f = TEnum e -> f_ty f <> TyUnit ->
+  a_vp (bf f) = Some (Cmd.VPPossible (f_icase f) (enum_pvs e))
+  /\ a_ignore_case (bf f) = f_icase f
+  /\ pv_coherent (bf f) = true.
+Proof. exact enum_field_parser. Qed.
+Print Assumptions C15_enum_field_parser.
+
+(** C04 APPLIES TO DERIVED ENUM FIELDS ([C04_stored_possible] instantiated at the generated argument): in every matcher whose
+    entries are typed for the built generated command (C04's invariant of every reachable parser state), each string stored
+    for an enum field is UTF-8, is -- byte for byte, or caselessly under the field's [ignore_case] -- a name or alias of a
+    NON-SKIPPED variant (hidden or not), its typed value is the string as typed, and [from_str] reads it as a variant.
+    Class: structs of argument fields and flattened structs ([flat_nodes]) that pass clap's assertions. *)
+Theorem C15_enum_field_stored : forall (d : dinput) (bin : bytes) l f e ma,
+  flat_nodes (d_nodes d) = true -> valid (UnparseTree.with_bin (derive_cmd d) bin) = true ->
+  TypedInv.typed_entries (built d bin) l ->
+  In f (leaves (d_nodes d)) -> f_t f = TEnum e -> f_ty f <> TyUnit -> In (f_id f, ma) l ->
+  Forall (Forall (fun s =>
+     utf8_valid s = true
+     /\ (exists i v n, nth_error e i = Some v /\ vv_skip v = false /\ In n (name_and_aliases (vv_pv v))
+                       /\ name_eq clap_unicode (f_icase f) n s)
+     /\ TypedView.typed_value (Cmd.VPPossible (f_icase f) (enum_pvs e)) s = Some (TypedView.TVal (TVStr s))
+     /\ exists i, parse_scalar (TEnum e) (f_icase f) s = Some (SvEnum i))) (m_raw ma).
+Proof. exact enum_field_stored. Qed.
+Print Assumptions C15_enum_field_stored.
+
+(** ... and [C04_hidden_accepted] at the generated argument: a hidden variant's name or alias passes the argument's parser
+    and is stored as typed *)
+Theorem C15_enum_field_hidden_accepted : forall f e i v n,
+  f_t f = TEnum e -> f_ty f <> TyUnit ->
+  nth_error e i = Some v -> vv_skip v = false -> vv_hide v = true ->
+  In n (name_and_aliases (vv_pv v)) -> utf8_valid n = true ->
+  exists vp, a_vp (bf f) = Some vp /\ TypedInv.accepts vp n /\ TypedView.typed_value vp n = Some (TypedView.TVal (TVStr n)).
+Proof. exact enum_field_hidden_accepted. Qed.
+Print Assumptions C15_enum_field_hidden_accepted.
+
+(** THE ENUM CHECK OF ROUNDS 1-4 IS NOW A THEOREM: the matches of ANY successful parse of the generated command hold only
+    strings [from_str] reads for every enum-typed field ([enum_ok_nodes]) -- all argv; class: [flat_nodes], no unit field. *)
+Theorem C15_parse_enum_ok : forall d argv m,
+  flat_nodes (d_nodes d) = true -> Forall (fun f => f_ty f <> TyUnit) (leaves (d_nodes d)) ->
+  valid (UnparseTree.with_bin (derive_cmd d) (hd [] argv)) = true ->
+  parse_top (derive_cmd d) argv = OOk m -> enum_ok_nodes (d_nodes d) m = true.
+Proof. exact parse_enum_ok. Qed.
+Print Assumptions C15_parse_enum_ok.
+
+(** ROUND TRIP FOR ENUM-TYPED FIELDS OF EVERY OPTION SHAPE ([E], [Option<E>], [Option<Option<E>>], [Vec<E>], [Option<Vec<E>>]),
+    as an equality through the real parser: every printed variant name -- of a hidden variant too -- passes the generated
+    argument's [EnumValueParser] and is read as the variant it was printed for.  [enum_field] = [field_ok] + an enum with
+    UTF-8 names no two kept variants share; instance of [C15_roundtrip_parse_class] ([ok_nodes] is derived). *)
+Theorem C15_roundtrip_parse_enum : forall d bin vs argv,
+  opt_struct d -> Forall takes_ok (fields_of (d_nodes d)) -> Forall enum_field (fields_of (d_nodes d)) ->
+  fits_all (d_nodes d) vs -> required_mentioned (d_nodes d) vs ->
+  valid (UnparseTree.with_bin (derive_cmd d) bin) = true -> print d vs = Some argv ->
+  derived_parse d (bin :: argv) = PValue vs.
+Proof. exact roundtrip_parse_enum. Qed.
+Print Assumptions C15_roundtrip_parse_enum.
+
+(** Non-vacuity: [{ e: Delta, oe: Some(Alpha), v: [Delta, Alpha], ov: Some([Delta]), oo: Some(None) }] with Delta the HIDDEN
+    variant prints to [--ee=delta --oe=alpha -v=delta -v=alpha --ov=delta --oo]; all hypotheses hold; the alias "d" of the
+    hidden variant is read as it, the skipped variant's name is rejected by the command. *)
+Theorem C15_roundtrip_parse_enum_nonvacuous :
+  opt_struct EnumEx.d /\ Forall takes_ok (fields_of (d_nodes EnumEx.d)) /\ Forall enum_field (fields_of (d_nodes EnumEx.d))
+  /\ fits_all (d_nodes EnumEx.d) EnumEx.v /\ required_mentioned (d_nodes EnumEx.d) EnumEx.v
+  /\ valid (UnparseTree.with_bin (derive_cmd EnumEx.d) b_prog) = true /\ print EnumEx.d EnumEx.v = Some EnumEx.argv
+  /\ derived_parse EnumEx.d (b_prog :: EnumEx.argv) = PValue EnumEx.v
+  /\ derived_parse EnumEx.d [b_prog; [45;45;101;101;61;100]]
+       = PValue [DOne (SvEnum 2); DOpt None; DVec []; DOptVec None; DOptOpt None]
+  /\ derived_parse EnumEx.d [b_prog; [45;45;101;101;61;98;101;116;97]] = PError EInvalidValue.
+Proof.
+  split; [exact EnumEx.ex_struct|]. split; [exact EnumEx.ex_takes|]. split; [exact EnumEx.ex_enum_fields|].
+  split; [exact EnumEx.ex_fits|]. split; [exact EnumEx.ex_required_mentioned|]. split; [exact EnumEx.ex_valid|].
+  split; [exact EnumEx.ex_print|]. split; [exact EnumEx.ex_roundtrip|exact EnumEx.ex_alias_and_skip].
+Qed.
+Print Assumptions C15_roundtrip_parse_enum_nonvacuous.
+
+(** * Round 5 (2): [bool] versus [Option<bool>] / [Option<Option<bool>>] (Derive/DeriveOptBool.v, DeriveAbsent.v) *)
+
+(** [item.rs default_action] decides on the FIELD type: [ArgAction::SetTrue] exactly for a field declared with the simple path
+    [bool] -- never for [Option<bool>], [Option<Option<bool>>], [Vec<bool>] (a seeded change looked at the inner type). *)
+Theorem C15_default_action_settrue_iff : forall t elem,
+  default_action t elem = ASetTrue <-> t = SynPath /\ elem = TBool.
+Proof. exact default_action_settrue_iff. Qed.
+Print Assumptions C15_default_action_settrue_iff.
+
+Theorem C15_default_action_option_bool :
+  default_action SynPath TBool = ASetTrue
+  /\ default_action (SynOption SynPath) TBool = ASet
+  /\ default_action (SynOption (SynOption SynPath)) TBool = ASet
+  /\ default_action (SynVec SynPath) TBool = AAppend
+  /\ default_action (SynOption (SynVec SynPath)) TBool = AAppend.
+Proof. exact default_action_option_bool. Qed.
+Print Assumptions C15_default_action_option_bool.
+
+(** THE GENERATED ARGUMENT of [x: Option<bool>] / [x: Option<Option<bool>>] (no attribute but the name: [optbool_field]):
+    action Set, the bool value parser, one value (resp. 0..=1), not required and NO default -- whereas [x: bool]
+    ([bool_field]) is a SetTrue flag without value whose implied default "false" is stored by every parse. *)
+Theorem C15_optbool_argument : forall f, optbool_field f ->
+  a_get_action (bf f) = ASet
+  /\ a_vp (bf f) = Some Cmd.VPBool
+  /\ a_num (bf f) = Some (match f_ty f with TyOptionOption => r_opt | _ => r_single end)
+  /\ a_required (bf f) = false
+  /\ a_default (bf f) = [].
+Proof. exact optbool_argument. Qed.
+Print Assumptions C15_optbool_argument.
+
+Theorem C15_bool_argument : forall f, bool_field f ->
+  a_get_action (bf f) = ASetTrue
+  /\ a_vp (bf f) = Some Cmd.VPBool
+  /\ a_num (bf f) = Some r_empty
+  /\ a_default (bf f) = [s_false].
+Proof. exact bool_argument. Qed.
+Print Assumptions C15_bool_argument.
+
+(** what the canonical printer writes for such a field: nothing for [None], [--x=true|false] for [Some(b)] (a bare [--x] for
+    [Some(None)] of an [Option<Option<bool>>]) *)
+Theorem C15_optbool_print : forall f, optbool_field f ->
+  (f_ty f = TyOption ->
+     field_groups f (DOpt None) = Some None
+     /\ (forall b, field_groups f (DOpt (Some (SvBool b))) = Some (Some [[if b then s_true else s_false]])))
+  /\ (f_ty f = TyOptionOption ->
+     field_groups f (DOptOpt None) = Some None
+     /\ field_groups f (DOptOpt (Some None)) = Some (Some [[]])
+     /\ (forall b, field_groups f (DOptOpt (Some (Some (SvBool b)))) = Some (Some [[if b then s_true else s_false]]))).
+Proof. intros f H. split; [exact (optbool_print f H)|exact (optoptbool_print f H)]. Qed.
+Print Assumptions C15_optbool_print.
+
+(** ROUND TRIP [None <-> absent] for structs of such fields, as an EQUALITY through the parser model and with NO hypothesis on the
+    value: every value of the type that prints ([None] -> nothing, [Some(b)] -> [--x=b]) parses back to itself; instance of
+    [C15_roundtrip_parse_class] whose value-side hypotheses ([ok_nodes], [fits_all], [required_mentioned], [takes_ok]) are
+    all derived from the class. *)
+Theorem C15_roundtrip_parse_optbool : forall d bin vs argv,
+  opt_struct d -> Forall optbool_field (fields_of (d_nodes d)) ->
+  valid (UnparseTree.with_bin (derive_cmd d) bin) = true -> print d vs = Some argv ->
+  derived_parse d (bin :: argv) = PValue vs.
+Proof. exact roundtrip_parse_optbool. Qed.
+Print Assumptions C15_roundtrip_parse_optbool.
+
+(** ABSENT => THE ABSENT VALUE, ALL ARGV.  For every struct of argument fields and flattened structs whose command passes
+    clap's assertions, every line and every field whose argument has no default (not a [bool] flag / counter /
+    [default_value]): if no token of the line names the field's argument (C10's [occurs]: key-map selection), the value the
+    derived parser returns holds the field's [absent_value] -- [None] for [Option<T>] / [Option<Option<T>>] / [Option<Vec<T>>],
+    the empty vector for [Vec<T>]; [field_at] looks the field up through non-optional flattens.  C10 [accepted_faithful],
+    C06 [precedence] + [cmdline_phase_all_cl] (no entry at the end), then [extract_absent] (mutual induction: an absent id
+    stays absent while extraction consumes the matches). *)
+Theorem C15_unoccurring_is_absent : forall d bin toks vs f,
+  flat_nodes (d_nodes d) = true -> In f (leaves (d_nodes d)) -> bf_default f = [] ->
+  valid (UnparseTree.with_bin (derive_cmd d) bin) = true ->
+  (forall a, In a (c_args (built d bin)) -> a_id a = f_id f -> ~ occurs (built d bin) toks a) ->
+  derived_parse d (bin :: toks) = PValue vs ->
+  forall x, field_at (d_nodes d) vs (f_id f) = Some x -> absent_value f = Some x.
+Proof. exact unoccurring_is_absent. Qed.
+Print Assumptions C15_unoccurring_is_absent.
+
+(** ... for [Option<T>] fields, [Option<bool>] in particular: absent is [None], never [Some(false)] *)
+Theorem C15_unoccurring_option_is_none : forall d bin toks vs f,
+  flat_nodes (d_nodes d) = true -> In f (leaves (d_nodes d)) -> f_ty f = TyOption -> bf_default f = [] ->
+  valid (UnparseTree.with_bin (derive_cmd d) bin) = true ->
+  (forall a, In a (c_args (built d bin)) -> a_id a = f_id f -> ~ occurs (built d bin) toks a) ->
+  derived_parse d (bin :: toks) = PValue vs ->
+  forall x, field_at (d_nodes d) vs (f_id f) = Some x -> x = DOpt None.
+Proof. exact unoccurring_option_is_none. Qed.
+Print Assumptions C15_unoccurring_option_is_none.
+
+(** Non-vacuity: [{ a: Option<bool>, b: Option<bool>, c: Option<Option<bool>>, d: Option<Option<bool>> }]:
+    [{None, Some(false), Some(None), Some(Some(true))}] = [--bb=false --cc -d=true] and the all-[None] value = the empty line
+    round-trip (by the theorem); [--aa] alone is a missing value (not a flag), [--aa true] is [Some(true)]; on
+    [prog --bb false] no token names [a], every hypothesis of [C15_unoccurring_option_is_none] holds, and [a] is [None]. *)
+Theorem C15_optbool_nonvacuous :
+  opt_struct OptBoolEx.d /\ Forall optbool_field (fields_of (d_nodes OptBoolEx.d))
+  /\ valid (UnparseTree.with_bin (derive_cmd OptBoolEx.d) b_prog) = true
+  /\ print OptBoolEx.d OptBoolEx.v = Some OptBoolEx.argv /\ print OptBoolEx.d OptBoolEx.v0 = Some []
+  /\ derived_parse OptBoolEx.d (b_prog :: OptBoolEx.argv) = PValue OptBoolEx.v
+  /\ derived_parse OptBoolEx.d [b_prog] = PValue OptBoolEx.v0
+  /\ derived_parse OptBoolEx.d [b_prog; [45;45;97;97]] = PError EInvalidValue
+  /\ derived_parse OptBoolEx.d [b_prog; [45;45;97;97]; s_true]
+       = PValue [DOpt (Some (SvBool true)); DOpt None; DOptOpt None; DOptOpt None]
+  /\ (forall a, In a (c_args (built OptBoolEx.d b_prog)) -> a_id a = f_id OptBoolEx.fa ->
+               ~ occurs (built OptBoolEx.d b_prog) OptBoolEx.toks a)
+  /\ In OptBoolEx.fa (leaves (d_nodes OptBoolEx.d)) /\ f_ty OptBoolEx.fa = TyOption /\ bf_default OptBoolEx.fa = []
+  /\ derived_parse OptBoolEx.d (b_prog :: OptBoolEx.toks) = PValue OptBoolEx.v2
+  /\ field_at (d_nodes OptBoolEx.d) OptBoolEx.v2 (f_id OptBoolEx.fa) = Some (DOpt None).
+Proof.
+  destruct OptBoolEx.ex_print as [P1 P2]. destruct OptBoolEx.ex_roundtrip as [R1 R2].
+  destruct OptBoolEx.ex_computed as (_ & C2 & C3). destruct OptBoolEx.ex_line as (_ & L2 & L3 & L4 & L5 & L6).
+  split; [exact OptBoolEx.ex_struct|]. split; [exact OptBoolEx.ex_fields|]. split; [exact OptBoolEx.ex_valid|].
+  split; [exact P1|]. split; [exact P2|]. split; [exact R1|]. split; [exact R2|]. split; [exact C2|]. split; [exact C3|].
+  split; [exact OptBoolEx.ex_unnamed|]. split; [exact L2|]. split; [exact L3|]. split; [exact L4|]. split; [exact L5|exact L6].
+Qed.
+Print Assumptions C15_optbool_nonvacuous.
+
+(** * Round 5 (3): [try_update_from] on [#[command(flatten)] x: Option<Inner>] when the value is already [Some]
+      (Derive/DeriveOptFlatten.v).  The two recorded findings (update-default-reset, update-optflatten-materialised: the [None]
+      arm) are unchanged; this is the [Some] arm. *)
+
+(** [gen_updater]'s [Some] arm: the inner struct is updated IN PLACE (the members' own updaters run on the current values) and
+    the flatten stays [Some] -- every body, every matches. *)
+Theorem C15_update_optflatten_some : forall gid body fs m v' m',
+  update_node (NFlatten true gid body) (DOptStruct (Some fs)) m = XOk (v', m') ->
+  exists fs', v' = DOptStruct (Some fs') /\ update_nodes body fs m = XOk (fs', m').
+Proof. exact update_optflatten_some. Qed.
+Print Assumptions C15_update_optflatten_some.
+
+(** matches level, every well-formed derive input: a field reachable in the current value through required flattens and through
+    optional flattens that are [Some] ([field_ato]; [field_at] of round 1 stops at optional flattens) and whose id is not in the
+    matches is still reachable after [update] -- the flattens on the way are still [Some] -- with the same value. *)
+Theorem C15_update_frame_optflatten : forall d vs m vs' i x,
+  wf_nodes (d_nodes d) -> update d vs m = XOk vs' -> m_contains i m = false ->
+  field_ato (d_nodes d) vs i = Some x -> field_ato (d_nodes d) vs' i = Some x.
+Proof. exact update_frame_ato. Qed.
+Print Assumptions C15_update_frame_optflatten.
+
+(** ALL ARGV: for every struct of argument fields and (optional) flattened structs whose update command passes clap's
+    assertions, every line and every leaf field whose argument has no default: if the field is reachable in the current value
+    (every [Option<Inner>] on the way is [Some]) and no token names its argument (C10's [occurs]), then after a successful
+    [try_update_from] it is still reachable and has the same value.  Extends [C15_update_unoccurring_untouched_flat] (whose
+    lookup does not enter optional flattens) to the class of the corpus types F3 / F6. *)
+Theorem C15_update_unoccurring_untouched_opt : forall d bin toks vs vs' f x,
+  flat_nodes (d_nodes d) = true -> wf_nodes (d_nodes d) -> In f (leaves (d_nodes d)) -> bf_default f = [] ->
+  valid (UnparseTree.with_bin (derive_cmd_for_update d) bin) = true ->
+  (forall a, In a (c_args (builtu d bin)) -> a_id a = f_id f -> ~ occurs (builtu d bin) toks a) ->
+  derived_update d vs (bin :: toks) = PValue vs' ->
+  field_ato (d_nodes d) vs (f_id f) = Some x -> field_ato (d_nodes d) vs' (f_id f) = Some x.
+Proof. exact update_unoccurring_untouched_opt. Qed.
+Print Assumptions C15_update_unoccurring_untouched_opt.
+
+(** Non-vacuity: [{ t: Option<String>, #[command(flatten)] opt: Option<Inner { e: Option<u8>, g: Option<u8> }> }], value
+    [{ t: None, opt: Some { e: Some(5), g: Some(6) } }] updated from [prog --ee 9] gives [{ None, Some { Some(9), Some(6) } }]:
+    all hypotheses hold for [g] (round 1's [field_at] does not see it), it keeps 6; the same struct with [opt: None] updated
+    from the empty line is materialised (the recorded finding, [None] arm). *)
+Theorem C15_update_optflatten_nonvacuous :
+  (forall a, In a (c_args (builtu OptFlattenEx.d OptFlattenEx.b_prog)) -> a_id a = f_id OptFlattenEx.fg ->
+             ~ occurs (builtu OptFlattenEx.d OptFlattenEx.b_prog) OptFlattenEx.toks a)
+  /\ wf_nodes (d_nodes OptFlattenEx.d)
+  /\ flat_nodes (d_nodes OptFlattenEx.d) = true /\ In OptFlattenEx.fg (leaves (d_nodes OptFlattenEx.d))
+  /\ bf_default OptFlattenEx.fg = []
+  /\ valid (UnparseTree.with_bin (derive_cmd_for_update OptFlattenEx.d) OptFlattenEx.b_prog) = true
+  /\ derived_update OptFlattenEx.d OptFlattenEx.v0 (OptFlattenEx.b_prog :: OptFlattenEx.toks) = PValue OptFlattenEx.v1
+  /\ field_ato (d_nodes OptFlattenEx.d) OptFlattenEx.v0 (f_id OptFlattenEx.fg) = Some (DOpt (Some (SvInt 6%Z)))
+  /\ field_at (d_nodes OptFlattenEx.d) OptFlattenEx.v0 (f_id OptFlattenEx.fg) = None
+  /\ field_ato (d_nodes OptFlattenEx.d) OptFlattenEx.v1 (f_id OptFlattenEx.fg) = Some (DOpt (Some (SvInt 6%Z)))
+  /\ derived_update OptFlattenEx.d [DOpt None; DOptStruct None] [OptFlattenEx.b_prog]
+       = PValue [DOpt None; DOptStruct (Some [DOpt None; DOpt None])].
+Proof.
+  split; [exact OptFlattenEx.ex_unnamed|]. split; [exact OptFlattenEx.ex_wf|].
+  destruct OptFlattenEx.ex_facts as (H1 & H2 & H3 & H4 & H5 & H6 & H7).
+  split; [exact H1|]. split; [exact H2|]. split; [exact H3|]. split; [exact H4|]. split; [exact H5|]. split; [exact H6|].
+  split; [exact H7|]. split; [exact OptFlattenEx.ex_in_place|exact OptFlattenEx.ex_none_arm].
+Qed.
+Print Assumptions C15_update_optflatten_nonvacuous.
+
+(** * Round 5 (1, continued): the round trip for POSITIONAL enum-typed fields (Derive/DeriveEnumPos.v) *)
+
+(** [E], [Option<E>] and a last [Vec<E>] as positionals: [derived_parse d (bin :: print d v) = PValue v] through the real
+    [EnumValueParser]; instance of [C15_roundtrip_parse_positional] with [ok_nodes] derived from [enum_field]. *)
+Theorem C15_roundtrip_parse_enum_positional : forall d bin vs argv,
+  fields_only (d_nodes d) = true -> Forall pos_field (fields_of (d_nodes d)) -> NoDup (map f_id (fields_of (d_nodes d))) ->
+  vec_last (fields_of (d_nodes d)) = true -> Forall enum_field (fields_of (d_nodes d)) ->
+  pos_prefix (fields_of (d_nodes d)) vs -> pos_fits (fields_of (d_nodes d)) vs ->
+  valid (UnparseTree.with_bin (derive_cmd d) bin) = true -> print d vs = Some argv ->
+  derived_parse d (bin :: argv) = PValue vs.
+Proof. exact roundtrip_parse_enum_positional. Qed.
+Print Assumptions C15_roundtrip_parse_enum_positional.
+
+(** Non-vacuity: [{ p: Delta (the hidden variant), q: Some(Alpha), r: [Delta, Delta] }] = [-- delta alpha delta delta]. *)
+Theorem C15_roundtrip_parse_enum_positional_nonvacuous :
+  Forall pos_field (fields_of (d_nodes EnumPosEx.d)) /\ NoDup (map f_id (fields_of (d_nodes EnumPosEx.d)))
+  /\ vec_last (fields_of (d_nodes EnumPosEx.d)) = true /\ Forall enum_field (fields_of (d_nodes EnumPosEx.d))
+  /\ pos_prefix (fields_of (d_nodes EnumPosEx.d)) EnumPosEx.v /\ pos_fits (fields_of (d_nodes EnumPosEx.d)) EnumPosEx.v
+  /\ valid (UnparseTree.with_bin (derive_cmd EnumPosEx.d) b_prog) = true
+  /\ print EnumPosEx.d EnumPosEx.v = Some EnumPosEx.argv
+  /\ derived_parse EnumPosEx.d (b_prog :: EnumPosEx.argv) = PValue EnumPosEx.v.
+Proof.
+  split; [exact EnumPosEx.ex_class|]. split; [exact EnumPosEx.ex_nodup|]. split; [reflexivity|].
+  split; [exact EnumPosEx.ex_enum_fields|]. split; [exact EnumPosEx.ex_prefix|]. split; [exact EnumPosEx.ex_fits|].
+  split; [exact EnumPosEx.ex_valid|]. split; [exact EnumPosEx.ex_print|exact EnumPosEx.ex_roundtrip].
+Qed.
+Print Assumptions C15_roundtrip_parse_enum_positional_nonvacuous.
+
+(** * Round 5, additions (Derive/DeriveRound5More.v) *)
+
+(** under [ignore_case], an ASCII string equal up to ASCII case to an ASCII name or alias of a kept variant -- hidden or not --
+    passes the enum field's parser ([C04_possible_caseless] at [enum_pvs]; the harness builds clap with the cargo feature
+    `unicode`, under which non-ASCII strings are compared by full case folding: [C04_stored_possible]'s [name_eq]) *)
+Theorem C15_enum_ascii_caseless : forall cnt e i v n s,
+  nth_error e i = Some v -> vv_skip v = false -> In n (name_and_aliases (vv_pv v)) ->
+  is_ascii n = true -> is_ascii s = true -> BoolParseProofs.ascii_ci_eq n s ->
+  vp_parse (vp_of cnt true (TEnum e)) s = None.
+Proof. exact enum_ascii_caseless. Qed.
+Print Assumptions C15_enum_ascii_caseless.
+
+Theorem C15_enum_ascii_caseless_nonvacuous :
+  nth_error ex_henum 2 = Some (mkVv false {| pv_name := [100; 101; 108; 116; 97]; pv_aliases := [[100]] |} true)
+  /\ is_ascii [100; 101; 108; 116; 97] = true /\ is_ascii [68; 101; 76; 116; 65] = true
+  /\ BoolParseProofs.ascii_ci_eq [100; 101; 108; 116; 97] [68; 101; 76; 116; 65]
+  /\ vp_parse (vp_of false true (TEnum ex_henum)) [68; 101; 76; 116; 65] = None.
+Proof. exact enum_ascii_caseless_example. Qed.
+Print Assumptions C15_enum_ascii_caseless_nonvacuous.
+
+(** the UPDATE flavour of the generated argument ([command_for_update]) carries the same enum parser, coherently *)
+Theorem C15_enum_field_parser_update : forall f e, f_t f = TEnum e -> f_ty f <> TyUnit ->
+  a_vp (arg_build (field_arg true f)) = Some (Cmd.VPPossible (f_icase f) (enum_pvs e))
+  /\ a_ignore_case (arg_build (field_arg true f)) = f_icase f
+  /\ pv_coherent (arg_build (field_arg true f)) = true.
+Proof. exact enum_field_parser_update. Qed.
+Print Assumptions C15_enum_field_parser_update.
+
+(** every SEQUENCE of updates: a field reachable through required flattens and [Some] optional flattens that none of the matches
+    names stays reachable with the same value (induction on the list of matches) *)
+Theorem C15_update_seq_frame_optflatten : forall d ms vs vs' i x,
+  wf_nodes (d_nodes d) -> update_seq d vs ms = XOk vs' ->
+  Forall (fun m => m_contains i m = false) ms ->
+  field_ato (d_nodes d) vs i = Some x -> field_ato (d_nodes d) vs' i = Some x.
+Proof. exact update_seq_frame_ato. Qed.
+Print Assumptions C15_update_seq_frame_optflatten.
+
+(** WHY [Option<bool>] must not be a flag: with the action the seeded change gave it ([SetTrue], expressible in the model as an
+    explicit attribute) the round trip is broken -- [None] prints to the empty line, which parses to [Some(false)] *)
+Theorem C15_optbool_as_flag_refuted :
+  exists d v argv v', print d v = Some argv /\ derived_parse d ([112; 114; 111; 103] :: argv) = PValue v' /\ v' <> v.
+Proof. exact optbool_as_flag_refuted. Qed.
+Print Assumptions C15_optbool_as_flag_refuted.
+
+(** Non-vacuity of the hypothesis [names_disjoint] of [C15_enum_bijection] / [C15_enum_hidden_accepted] / [C15_roundtrip_parse_enum]
+    for an enum with two kept variants, one of them hidden with an alias ([ex_henum]), under both comparisons. *)
+Theorem C15_enum_names_disjoint_nonvacuous : names_disjoint false ex_henum /\ names_disjoint true ex_henum.
+Proof. split; [exact ex_henum_disjoint_cs|exact ex_henum_disjoint_ci]. Qed.
+Print Assumptions C15_enum_names_disjoint_nonvacuous.
+
+(** * Round 5: an optional flatten is [None] when the line names none of its members, ALL argv (Derive/DeriveOptFlattenNone.v) *)
+
+(** [gen_constructor] builds [Option<Inner>] as [Some] iff [contains_id(Inner's group)]; the group gets an entry only from an
+    EXPLICIT occurrence of one of its members (groups are started for explicit sources only; the defaults phase appends entries
+    of arguments only).  For every struct of argument fields and flattened structs whose command passes clap's assertions and
+    every line: if no token names an argument that belongs to the group [gid] (C10's [occurs]), the value the derived parser
+    returns holds [None] for the optional flatten with that group id ([flatten_at]: lookup through required flattens).
+    C10 [accepted_faithful], C06 [phase_order] / [cmdline_phase_all_cl] / [add_defaults_frame], then [extract_absent_group]. *)
+Theorem C15_unoccurring_optflatten_is_none : forall d bin toks vs gid,
+  flat_nodes (d_nodes d) = true -> valid (UnparseTree.with_bin (derive_cmd d) bin) = true ->
+  find_group (built d bin) gid <> None ->
+  (forall a, In a (c_args (built d bin)) -> In gid (groups_for_arg (built d bin) (a_id a)) -> ~ occurs (built d bin) toks a) ->
+  derived_parse d (bin :: toks) = PValue vs ->
+  forall x, flatten_at (d_nodes d) vs gid = Some x -> x = DOptStruct None.
+Proof. exact unoccurring_optflatten_is_none. Qed.
+Print Assumptions C15_unoccurring_optflatten_is_none.
+
+(** Non-vacuity: [{ t: Option<String>, #[command(flatten)] opt: Option<Inner { e: Option<u8>, g: Option<u8> }> }] on [prog --tt x]:
+    the group "I" exists, none of its arguments is named, [opt] is [None]; naming [e] ([prog --ee 9]) makes it [Some]. *)
+Theorem C15_unoccurring_optflatten_nonvacuous :
+  flat_nodes (d_nodes OptFlattenEx.d) = true
+  /\ valid (UnparseTree.with_bin (derive_cmd OptFlattenEx.d) OptFlattenEx.b_prog) = true
+  /\ find_group (built OptFlattenEx.d OptFlattenEx.b_prog) OptFlattenNoneEx.gidI <> None
+  /\ (forall a, In a (c_args (built OptFlattenEx.d OptFlattenEx.b_prog)) ->
+                In OptFlattenNoneEx.gidI (groups_for_arg (built OptFlattenEx.d OptFlattenEx.b_prog) (a_id a)) ->
+                ~ occurs (built OptFlattenEx.d OptFlattenEx.b_prog) OptFlattenNoneEx.toks2 a)
+  /\ derived_parse OptFlattenEx.d (OptFlattenEx.b_prog :: OptFlattenNoneEx.toks2) = PValue OptFlattenNoneEx.v2
+  /\ flatten_at (d_nodes OptFlattenEx.d) OptFlattenNoneEx.v2 OptFlattenNoneEx.gidI = Some (DOptStruct None)
+  /\ derived_parse OptFlattenEx.d [OptFlattenEx.b_prog; [45;45;101;101]; [57]]
+       = PValue [DOpt None; DOptStruct (Some [DOpt (Some (SvInt 9%Z)); DOpt None])].
+Proof.
+  destruct OptFlattenNoneEx.ex_facts2 as (H1 & H2 & H3 & H4).
+  split; [exact H1|]. split; [exact H2|]. split; [exact OptFlattenNoneEx.g_group|].
+  split; [exact OptFlattenNoneEx.ex_members_unnamed|]. split; [exact H3|]. split; [exact H4|exact OptFlattenNoneEx.ex_named].
+Qed.
+Print Assumptions C15_unoccurring_optflatten_nonvacuous.
+
+(** THE TYPED VALUE AGREES TOO.  [EnumValueParser::parse_ref] stores the first matching element of [value_variants()] (C04's
+    [enum_parse]: its index [k] among the kept variants); the derive model's extraction reads the stored string again with
+    [from_str] ([parse_scalar]).  The [k]-th kept variant is the declared variant the typed reading answers -- so re-reading
+    the raw value loses nothing. *)
+Theorem C15_enum_parse_ref_variant : forall e ic s k,
+  enum_parse clap_unicode ic (map fst (enum_pvs e)) s = ValueBase.VOk k ->
+  exists i pv, nth_error (lits e) k = Some (i, pv) /\ parse_scalar (TEnum e) ic s = Some (SvEnum i).
+Proof. exact enum_parse_ref_variant. Qed.
+Print Assumptions C15_enum_parse_ref_variant.
